@@ -394,6 +394,7 @@ Qed.
 
 Lemma N_range_lt : forall n a e, a + N.of_nat n <= e -> Forall (fun i => i < e) (N_range a n).
 Proof.
+  clear Hvalid.
   induction n; intros a e H; cbn [N_range]; constructor; [lia|]. apply IHn. lia.
 Qed.
 
